@@ -68,7 +68,7 @@ func register(p *PropDef) { props[p.ID] = p }
 
 // owned rules per property
 var owned = map[string][]string{
-	"C02": {"lin", "panic"},
+	"C02": {"lin", "range-lin", "panic"}, // Range and Items are value-returning calls of the cache API (C01, C02)
 	"C03": {"lin", "panic"},
 	"C04": {"lin", "panic"},
 	"C05": {"fn-calls", "racers", "chain", "panic"},
